@@ -84,6 +84,8 @@ func init() {
 		run: func(c *Ctx, r *Report) {
 			ruleLzmaHeaderCodec(c, r, "")
 			ruleLzmaWriterContract(c, r, "")
+			ruleSizeSign(c, r, "")
+			ruleLookahead(c, r, "")
 			rulePropsCode(c, r, "")
 			ruleReaderWindow(c, r, "")
 			ruleMatcherGuard(c, r, "", false)
@@ -115,6 +117,7 @@ func init() {
 			ruleReaderWindow(c, r, "")
 			ruleSizeBeforeOp(c, r, "")
 			ruleLzmaWriterContract(c, r, "")
+			ruleSizeSign(c, r, "")
 		},
 	})
 }
